@@ -16,6 +16,7 @@ import (
 
 type cacheFunctions[MetadataT any] struct {
 	cacheIterator iter.Seq2[CacheKey, *EntryMetadata[MetadataT]]
+	getMetadata   func(key CacheKey) (*EntryMetadata[MetadataT], bool)
 	removeEntry   func(key CacheKey) error
 	getCacheSize  func() int64
 	getCacheLen   func() int
@@ -120,6 +121,13 @@ func (j *cacheJanitor[MetadataT]) cleanExpiredEntries() {
 		locked := lock.TryLock()
 		if !locked {
 			slog.Info("Failed to acquire lock for key", "key", key.Hex)
+			continue
+		}
+
+		// The entry may have been refreshed or replaced since the scan, so check again under the lock.
+		if meta, ok := j.cacheFns.getMetadata(key); !ok || !meta.Expires.Before(time.Now()) {
+			lock.Unlock()
+			slog.Info("Cache entry is no longer expired, keeping it", "key", key.Hex)
 			continue
 		}
 
